@@ -16,6 +16,8 @@ def _structs(tier):
 def main(tier, t0):
     tasks = stage_check.tasks_for("C18", tier, scenario="history", sizes=_sizes, structure_filter=_structs(tier))
     tasks += stage_check.tasks_for("C18", tier, scenario="repeat", sizes=_sizes, structure_filter=_structs(tier))
+    # other public calls (profile_graph, a SHACL rendering) between the two calls: made in the real pipeline of every end-to-end witness
+    tasks += stage_check.tasks_for("C18", tier, scenario="history+profile_graph+shacl", sizes=lambda t, k: [k + 1], structure_filter=lambda st: st["name"] in ("opt-literal", "literal-cards", "ref-vs-iri"))
     tasks += [("harness.api", "run_history", "api/" + n, dict(name=n)) for n in ("examples-repeat", "file-vs-string", "file-vs-string-10000-lines", "shared-namespaces-dict",
                                                                                  "format-after-format", "min-iri-repeat")]
     return stage_check.main("C18", tier, t0, tasks=tasks,
